@@ -11,7 +11,7 @@ import vlib
 from checks import audcommon
 
 PID = "C03"
-THEOREMS = ["c03_interpretation_per_pair", "c03_last_clause_wins", "c03_last_shorthand_wins",
+THEOREMS = ["c03_collect_errors_keeps_failures", "c03_interpretation_per_pair", "c03_last_clause_wins", "c03_last_shorthand_wins",
             "c03_other_pairs_untouched", "c03_fouled_iff_documented",
             "c03_early_exit_never_changes_the_verdict", "c03_funnel_keeps_audit_verdict",
             "c03_funnel_keeps_cleanup_failure", "c03_funnel_keeps_component_errors",
@@ -181,7 +181,10 @@ def run(tier, seed):
     if r is None:
         return res.finish()
     cases_v, cases, summary = r
-    queries = [("M", "bad_indices case_model_bad cases"), ("OC", "map case_oracle_code cases")]
+    queries = [("M", "bad_indices case_model_bad cases"), ("OC", "map case_oracle_code cases"),
+               ("MF", "bad_indices funnel_model_bad funnel_cases"),
+               ("MC", "bad_indices collect_model_bad collect_cases"),
+               ("OCE", "bad_indices collect_oracle_bad collect_cases")]
     rc, cout, q, path = vlib.eval_cases(PID, tier, HEADER, cases_v, queries, timeout=3000)
     vals = {k: vlib.parse_nat_list(v) for k, v in q.items()}
     res.coverage.update({
@@ -214,6 +217,15 @@ def run(tier, seed):
                               {"kind": "failing-input", "config": c["Cfg"], "events": c["Events"], "expected_interpretation": c["Expect"],
                                "full": {k: c["Full"][k] for k in ("Verdict", "GoodCounts", "BadCounts", "Errors", "HasData")},
                                "early": {k: c["Early"][k] for k in ("Verdict", "GoodCounts", "BadCounts", "Errors", "HasData", "EarlyExitAt")}})
+    if vals["OCE"]:
+        res.violation("collect-errors-drops-a-failure", "collectErrors returned nil although one of the concurrent results was an error (case %d of the collect cases)" % vals["OCE"][0],
+                      {"kind": "failing-input", "collect_case_index": vals["OCE"][0], "replay": "cmd.VerifCollectErrors(results)", "cases_file": path})
+    if not res.violations and not res.known:
+        for name, what in (("MF", "conduct's error combination (combineErrors/ignCancel/errors.Is) differs from Model/Verdict.v conduct_result"),
+                           ("MC", "collectErrors differs from Model/Verdict.v collect_errors")):
+            if vals[name]:
+                res.violation(None, "%s on %d cases" % (what, len(vals[name])),
+                              {"kind": "correspondence", "query": name, "first_index": vals[name][0], "cases_file": path}, no_input=True)
     if not res.violations and not res.known and vals["M"]:
         c = cases[vals["M"][0]]
         res.violation(None, "model (Model/Verdict.v) and implementation disagree on %d of %d cases while the documented-rule oracle passes" % (len(vals["M"]), len(cases)),
